@@ -57,14 +57,26 @@ def ref_bloom_reader(data, key):
 
 
 def ref_cbf_writer(est, fpr, adds):
+    """adds: (key, n) with n > 0 an addition, n < 0 the removal of -n (only of what is there)"""
     t = f32(fpr)
     k, m = ref_geometry(est, t)
     cells = [0] * m
     total = 0
     for key, n in adds:
-        for h in ref_hashes(key, k):
-            cells[h % m] = min(cells[h % m] + n, 2**32 - 1)
-        total += n
+        pos = [h % m for h in ref_hashes(key, k)]
+        if n > 0:
+            for p in pos:
+                cells[p] = min(cells[p] + n, 2**32 - 1)
+            total = min(total + n, 2**64 - 1)
+        else:
+            low = min(cells[p] for p in pos)
+            if low in (0, 2**32 - 1):
+                continue
+            r = min(-n, low)
+            for p in pos:
+                if cells[p] < 2**32 - 1:
+                    cells[p] -= r
+            total -= r
     return struct.pack("<%dI" % m, *cells) + struct.pack("<QQf", est, total, t)
 
 
@@ -134,8 +146,20 @@ def check(case):
         except P.exceptions.InitializationError:
             return None
         adds = list(zip(keys, case["amounts"]))
+        # every third key is (partly) removed again later on
+        adds += [(k, -min(n, 2)) for k, n in adds[::3] if n < 2**31]
+        outstanding = {}
+        done = []
         for k, n in adds:
-            b.add(k, n)
+            if n > 0:
+                b.add(k, n)
+                outstanding[k] = outstanding.get(k, 0) + n
+                done.append((k, n))
+            elif outstanding.get(k, 0) >= -n:
+                b.remove(k, -n)
+                outstanding[k] += n
+                done.append((k, n))
+        adds = done
         data = bytes(b)
         if data != ref_cbf_writer(case["est"], case["fpr"], adds):
             return "counting Bloom export differs from the reference writer's file"
